@@ -49,11 +49,16 @@ BODIES = {
     "three": (["a", "b", "c"], [("raw", ".dl a"), ("raw", ".dl b"), ("raw", ".dl c")]),
     "splice": (["a", "c"], [("splice", "c"), ("raw", ".db a"), ("splice", "c")]),
     "noargs": ([], [("raw", "loc:"), ("raw", ".dl loc")]),
+    # the second parameter is needed while the body is expanded (.if / .for bound / :=), the first may be a label
+    "cond": (["a", "b"], [("if", "b", [("raw", ".db 1")], [("raw", ".db 2")]), ("raw", ".dl a")]),
+    "loopn": (["a", "b"], [("for", "k", "0", "b", [("raw", ".db k")]), ("raw", ".dl a")]),
+    "assign": (["a", "b"], [("raw", "x := b + 1"), ("raw", ".db x"), ("raw", ".dl a")]),
 }
+EARLY_ARGS = {"zero": ("expr", "0"), "lit": ("expr", "2"), "assigned": ("expr", "kc"), "assigned-expr": ("expr", "kc - 3")}
 
 
 def prelude():
-    return [("raw", "*= p"), ("raw", "k0 = V0"), ("raw", "k1 = V1"), ("raw", "a = V2"), ("raw", "b = V3"), ("raw", "back:"), ("raw", ".db 0xEE")]
+    return [("raw", "*= p"), ("raw", "kc := 3"), ("raw", "k0 = V0"), ("raw", "k1 = V1"), ("raw", "a = V2"), ("raw", "b = V3"), ("raw", "back:"), ("raw", ".db 0xEE")]
 
 
 def postlude():
@@ -86,6 +91,12 @@ def programs(tier):
         out.append((f"splice/{k}", prog))
     prog = prelude() + [("macrodef", "m", *BODIES["noargs"]), ("call", "m", []), ("call", "m", [])] + postlude()
     out.append(("noargs/x2", prog))
+    for body in ("cond", "loopn", "assign"):
+        params, b = BODIES[body]
+        for k1 in ("lit", "const", "back", "fwd", "pname"):
+            for k2, a2 in EARLY_ARGS.items():
+                prog = prelude() + [("macrodef", "m", params, b), ("call", "m", [ARGS[k1], a2]), ("raw", "kc := 9"), ("call", "m", [ARGS["lit"], a2])] + postlude()
+                out.append((f"{body}/{k1}-{k2}", prog))
     # nested calls
     for k in kinds:
         prog = prelude() + [("macrodef", "inner", ["a"], [("raw", "loc:"), ("raw", ".dw a"), ("raw", ".dl loc")]),
